@@ -40,7 +40,7 @@ def run(tier, seed):
             chk.violation({"helper": "active_edges_connected_crossable", "route": "z3",
                            "single_cycle": job["single_cycle"], "direction": d},
                           f"crossable constraint (single_cycle={job['single_cycle']}) {d}; definition says {mm['expected']} {mm['why']}",
-                          {"obj": job["obj"], "single_cycle": job["single_cycle"], "alias": job["alias"],
+                          {"obj": job["obj"], "id": job["id"], "single_cycle": job["single_cycle"], "alias": job["alias"],
                            "frameform": job.get("frameform", "vars"), "pattern": mm["pattern"], "segments_active": GR.bits_of(mm["pattern"], m),
                            "expected": mm["expected"], "observed": mm["observed"], "why": mm["why"],
                            "passed_mask": job["passed"][job["patterns"].index(mm["pattern"])],
